@@ -73,14 +73,14 @@ impl Conditional<f64> for MixCond {
     fn sample(&mut self, i: usize, given: &[f64]) -> f64 {
         if i == 0 {
             let z = given[1];
-            let (mu, sd) = if z < 0.5 { (-2.0, 1.0) } else { (3.0, 0.5) };
+            let (mu, sd) = if z < 0.5 { (-1.0, 1.0) } else { (1.0, 1.0) };
             let n: f64 = self.rng.sample(rand_distr::StandardNormal);
             mu + sd * n
         } else {
             let x = given[0];
             let pdf = |x: f64, mu: f64, sd: f64| (-(x - mu) * (x - mu) / (2.0 * sd * sd)).exp() / sd;
-            let p0 = 0.4 * pdf(x, -2.0, 1.0);
-            let p1 = 0.6 * pdf(x, 3.0, 0.5);
+            let p0 = 0.4 * pdf(x, -1.0, 1.0);
+            let p1 = 0.6 * pdf(x, 1.0, 1.0);
             let pz1 = if p0 + p1 > 0.0 { p1 / (p0 + p1) } else { 0.5 };
             if self.rng.random::<f64>() < pz1 {
                 1.0
